@@ -27,7 +27,7 @@ ASSUMPTIONS = C04.ASSUMPTIONS + [
     'maybe_stop() without an exception is only issued on queues whose max_enqueuer is preset or whose producer has started (documented: an unset max_enqueuer means no enqueuer has started)',
     'starvation scenarios: a timed wait expires exactly when no thread is enabled',
 ]
-REQUIRED = ['schedules', 'line_preemptions', 'fault_cases', 'stop_cases',
+REQUIRED = ['async_cases', 'schedules', 'line_preemptions', 'fault_cases', 'stop_cases',
             'timeout_cases', 'faults_fired', 'stops_issued', 'shim_threading_installed']
 CHUNK_TIMEOUT_S = {'quick': 300, 'thorough': 3000}
 
@@ -36,7 +36,9 @@ def plan(tier, seed):
   n_cfg, n_sched = (96, 8) if tier == 'quick' else (800, 40)
   chunks = 32 if tier == 'quick' else 64
   return [{'chunk': i, 'chunks': chunks, 'n_cfg': n_cfg, 'n_sched': n_sched,
-           'rseed': seed} for i in range(chunks)]
+           'rseed': seed} for i in range(chunks)] + [
+      {'mode': 'async', 'chunk': j, 'rseed': seed,
+       'n': 120 if tier == 'quick' else 4000} for j in range(2 if tier == 'quick' else 8)]
 
 
 def scenario(case):
@@ -144,7 +146,44 @@ def cases_for_config(cfg, rng, tier):
   return out
 
 
+def run_async_chunk(ctx, spec):
+  """AsyncIteratorQueue (asyncio producers, sync/async consumers) on native threads."""
+  from vlib import aqwork
+  rng = random.Random(spec['rseed'] * 9176 + spec['chunk'] * 131 + 1)
+  for i in range(spec['n']):
+    P = rng.choice([1, 2, 3])
+    lens = [rng.randint(0, 5) for _ in range(P)]
+    C = rng.choice([1, 2, 3])
+    case = {'engine': 'async', 'P': P, 'lens': lens, 'C': C, 'cap': rng.choice([0, 1, 2, 3]),
+            'modes': [rng.choice(['async', 'get', 'batch', 'batch_b']) for _ in range(C)],
+            'delay_seed': rng.randrange(1 << 20)}
+    if 1:
+      p = rng.randrange(P)
+      case['fault'] = {'p': p, 'at': rng.randint(0, lens[p])}
+    run_async_one(ctx, case)
+
+
+def run_async_one(ctx, case):
+  from vlib import aqwork
+  finished, log = aqwork.run_async_case(case, 30)
+  if not finished:
+    finished, log = aqwork.run_async_case(case, 30)
+    if not finished:
+      ctx.violation('no_completion_within_watchdog', case, {'log_tail': log[-20:]},
+                    mechanism='async-queue-hang')
+      return
+    ctx.inconclusive_case('async case hit the watchdog once', case)
+  ctx.count('async_cases')
+  ctx.count('async_recv_events', sum(1 for e in log if e[0] == 'recv'))
+  ctx.case(('async', case), case['P'] + case['C'] >= 3)
+  for kind, detail in aqwork.analyse(case, log):
+    ctx.violation(kind, case, {'detail': detail, 'log_tail': log[-20:]},
+                  mechanism=f'async-queue-{kind}')
+
+
 def run_chunk(ctx, spec):
+  if spec.get('mode') == 'async':
+    return run_async_chunk(ctx, spec)
   rng = random.Random(spec['rseed'] * 1000003 + 29)
   configs = [C04.gen_config(rng) for _ in range(spec['n_cfg'])]
   mine = [c for i, c in enumerate(configs) if i % spec['chunks'] == spec['chunk']]
@@ -162,4 +201,6 @@ def run_chunk(ctx, spec):
 
 
 def run_case(ctx, case):
+  if case.get('engine') == 'async':
+    return run_async_one(ctx, case)
   run_one(ctx, case)
